@@ -40,7 +40,7 @@ type vhostServer struct {
 // startVHostServer builds a transport server whose certificate callbacks are the
 // closures of hopserver.NewHopServer around the real NewVirtualHosts/Match/glob
 // (that constructor itself opens a real socket, so it cannot be called).
-func startVHostServer(r *Run, n *Net, nHosts int, hidden bool, fallback bool) *vhostServer {
+func startVHostServer(r *Run, n *Net, nHosts int, hidden bool, fallback bool, misnamed ...bool) *vhostServer {
 	vs := &vhostServer{addr: Addr(1, 77), pki: NewPKI("vh"), hidden: hidden}
 	pats := [][2]string{{"alpha.sim", "alpha.sim"}, {"*.beta.sim", "www.beta.sim"}, {"gamma-*", "gamma-7"}, {"d*a.sim", "delta.sim"},
 		{"ex.*.sim", "ex.www.sim"}, {"a*a", "aba"}, {"host.*.host", "host.q.host"}}
@@ -79,6 +79,11 @@ func startVHostServer(r *Run, n *Net, nHosts int, hidden bool, fallback bool) *v
 			sc.HiddenModeVHostNames = append(sc.HiddenModeVHostNames, h.name)
 		}
 	}
+	if len(misnamed) > 0 && misnamed[0] {
+		// hidden mode is configured, but none of the hidden names belongs to a host block: the server can serve
+		// nobody -- and stays hidden
+		sc.HiddenModeVHostNames = []string{"no-such-host.example"}
+	}
 	vhosts, err := hopserver.NewVirtualHosts(sc, nil, nil)
 	must(err)
 	getCert := func(info transport.ClientHandshakeInfo) (*transport.Certificate, error) {
@@ -104,6 +109,21 @@ func startVHostServer(r *Run, n *Net, nHosts int, hidden bool, fallback bool) *v
 		return certificates, nil
 	}
 	vs.ep = n.Listen("server", vs.addr, nil)
+	if hopserver.VerifListenPatched && r.Intn("vh", 4) != 0 {
+		// the REAL constructor: virtual hosts, hidden-mode activation and the client-verification policy are
+		// derived from the server configuration by hopserver.NewHopServer itself (its socket is the simulated one)
+		sc.ListenAddress = vs.addr.String()
+		sc.InsecureSkipVerify = true
+		sc.HandshakeTimeout = 3 * time.Second
+		hopserver.VerifListen = func(string) (transport.UDPLike, error) { return vs.ep, nil }
+		hs, err := hopserver.NewHopServer(sc)
+		hopserver.VerifListen = nil
+		must(err)
+		vs.srv = hs.Server
+		r.Probe("server-built-by-the-real-NewHopServer")
+		go vs.srv.Serve()
+		return vs
+	}
 	tconf := transport.ServerConfig{
 		GetCertificate: getCert, GetCertList: getAllowedCerts, HandshakeTimeout: 3 * time.Second,
 		ClientVerify: &transport.VerifyConfig{InsecureSkipVerify: true}, HiddenModeVHostNames: sc.HiddenModeVHostNames, IsHidden: hidden,
